@@ -580,6 +580,34 @@ impl<'a> Sim<'a> {
                     act::CurrencyPairsChange::Removal(set)
                 })
             }
+            ActOp::Markets { kind, pair, decimals } => {
+                use astria_core::oracles::price_feed::market_map::v2::{
+                    Market,
+                    ProviderConfig,
+                    Ticker,
+                };
+                let market = Market {
+                    ticker: Ticker {
+                        currency_pair: pair_name(*pair).parse().unwrap(),
+                        decimals: *decimals,
+                        min_provider_count: 1,
+                        enabled: true,
+                        metadata_json: String::new(),
+                    },
+                    provider_configs: vec![ProviderConfig {
+                        name: "sim".to_string(),
+                        off_chain_ticker: pair_name(*pair).to_lowercase(),
+                        normalize_by_pair: None,
+                        invert: false,
+                        metadata_json: String::new(),
+                    }],
+                };
+                Action::MarketsChange(match kind % 3 {
+                    0 => act::MarketsChange::Creation(vec![market]),
+                    1 => act::MarketsChange::Removal(vec![market]),
+                    _ => act::MarketsChange::Update(vec![market]),
+                })
+            }
             ActOp::Ics20Withdrawal { asset, amt, channel, fee_asset, bridge, event } => {
                 let d = denom(*asset);
                 let payer = bridge.map_or(*signer, |b| k.addr(b));
@@ -721,7 +749,10 @@ impl<'a> Sim<'a> {
             IbcKind::Timeout { .. } => "ibc.timeout.submitted",
         });
         let t = TxOp { id: i.id, signer: i.relayer, nonce: i.nonce.clone(), actions: vec![], nodes: i.nodes, dup: false, replay_of: None };
-        self.submit(&t, Some(vec![Action::Ibc(relay)])).await;
+        let signer = self.keys.addr(i.relayer);
+        let mut actions: Vec<Action> = i.pre.iter().map(|a| self.build_action(a, &signer)).collect();
+        actions.push(Action::Ibc(relay));
+        self.submit(&t, Some(actions)).await;
     }
 
     async fn do_tx(&mut self, t: &TxOp) {
